@@ -3,7 +3,7 @@ from contracts import groups, primitives, useractions
 from ._common import TRUSTED_TRACKS, UA_ALL
 
 LEVEL = "other"
-TRUSTED = TRUSTED_TRACKS + ["M4 (reversing a list of stepwise-invertible steps inverts their composition) - Lean: reverse_inverts"]
+TRUSTED = TRUSTED_TRACKS + ["call-site contracts of the sub-action constructors used by UserUpdateSegmentation at the level of abstract world states (raise => world unchanged; return => a record with src/dst; registers/emits iff _top_level): proved of the real UserDeleteNode / UserAddNode constructors (clauses C11 on-raise, C02/C20 iff-top-level) and of the primitive UpdateNodeSeg (contracts/segprims.py); a.inverse() moves the world from dst(a) to src(a) (C01's conclusion)", "M4 (reversing a list of stepwise-invertible steps inverts their composition) - Lean: reverse_inverts"]
 EXPLANATION = (
     "PROVED (SMT, unbounded): (1) for each primitive A (AddNode, DeleteNode, AddEdge, DeleteEdge, UpdateNodeAttrs, UpdateTrackIDs): "
     "{INV & documented precondition} s1=A(s0); s2=A.inverse()(s1); s3=inverse-of-inverse(s2) gives s2~s0 and s3~s1 on nodes, edges, "
@@ -12,22 +12,26 @@ EXPLANATION = (
     "every user action the documented invertibility precondition holds ('invertible-here' obligations) and the group's actions list "
     "records exactly the applied sub-actions in order; (3) the real ActionGroup.inverse returns the inverses in reverse order for "
     "lists of every length (comprehension invariant). Composition (2)+(3) => group inverse restores is lemma M4 (Lean). "
+    "(4) the real UserUpdateSegmentation constructor (contracts/paint.py, abstract world states, updated_pixels of every length): its actions "
+    "list is a chain from the entry world to the final world, so (3)+M4 apply to it. "
     "The relabel walk body is proved against its contract (contracts/walk.py). BOUNDED STAND-IN: its lookup bookkeeping. Segmentation part: see C07 units.")
 ASSUMPTIONS = ["observable state as in the property: nodes, edges, registered feature values, segmentation; max ids / counters / list order excluded",
                "attribute values stored on the graph are never raw ndarrays (the library's writers convert them)",
                "without segmentation the position is a registered node feature present on every node"]
 LEMMAS = ["M4 reverse_inverts (Lean)", "M1b lineage ids equal along descendant paths", "M3 facts of below"]
-NOT_UNDER_CONTRACT = ["bookkeeping helpers called at the end of the relabel walk (bounded stand-in)", "UserUpdateSegmentation (bounded stand-in, C07)"]
+NOT_UNDER_CONTRACT = ["bookkeeping helpers called at the end of the relabel walk (bounded stand-in)", "pixel-level effect of UserUpdateSegmentation (which sub-actions a stroke needs: bounded stand-in paint-strokes-exhaustive)"]
 
 
 def units(tier):
     from contracts import walk
-    return walk.units() + primitives.invert_units() + groups.units() + useractions.units(UA_ALL, {"lineage_inv": True}) + primitives.units()
+    from contracts import paint
+    return paint.units() + walk.units() + primitives.invert_units() + groups.units() + useractions.units(UA_ALL, {"lineage_inv": True}) + primitives.units()
 
 
 def bounded(tier, seed):
-    from pyvc.native_bridge import bounded_walk
-    return [bounded_walk(tier, "walk", "walk", "real _handle_update_track_ids vs contract K1 (the inverse walk covers the same set)")]
+    from pyvc.native_bridge import bounded_paint, bounded_walk
+    return [bounded_walk(tier, "walk", "walk", "real _handle_update_track_ids vs contract K1 (the inverse walk covers the same set)"),
+            bounded_paint(tier, "C01", "paint-driven UserUpdateSegmentation (not under contract): undo restores the canonical state exactly, redo re-applies it")]
 
 
 def witness(label, failure, seed):
